@@ -52,13 +52,13 @@ def to_gen_format(gen, m):
 
 def go_build(d, what="./..."):
     # -e: every compile error, not just the first ten of a package (a root cause must not hide another behind "too many errors")
-    p = subprocess.run(["go", "build", "-gcflags=-e", what], cwd=d, env=lib.GOENV, stdout=subprocess.PIPE, stderr=subprocess.STDOUT, text=True, errors="replace")
+    p = lib.go_run(["go", "build", "-gcflags=-e", what], d)
     lib.no_space(p.stdout)
     return p.returncode, p.stdout
 
 
 def go_vet(d, what="./..."):
-    p = subprocess.run(["go", "vet", what], cwd=d, env=lib.GOENV, stdout=subprocess.PIPE, stderr=subprocess.STDOUT, text=True, errors="replace")
+    p = lib.go_run(["go", "vet", what], d)
     return p.returncode, p.stdout
 
 
@@ -433,7 +433,7 @@ def run_dependent(scr, verdict, binp, stats):
     if rc != 0:
         verdict.add("C12/v2/dependent/does-not-compile", "bindings generated against another package root's written manifest (custom typeref by location) do not compile: " + bout[-1500:], dict(manifest="dependent-2"))
         return
-    p = subprocess.run(["go", "run", "./prog"], cwd=mod, env=lib.GOENV, stdout=subprocess.PIPE, stderr=subprocess.STDOUT, text=True, errors="replace", timeout=600)
+    p = lib.go_run(["go", "run", "./prog"], mod, timeout=600)
     if p.returncode != 0:
         verdict.add("C12/v2/dependent/program-fails", "a program using the custom typeref generically and through the dependent bindings fails: " + p.stdout[-800:], dict(manifest="dependent-2"))
     stats["dependent_programs_run"] = stats.get("dependent_programs_run", 0) + 1
@@ -505,7 +505,7 @@ def run_checked_in(scr, verdict, v2bin, stats):
         mod = new_module(scr, gen, "regen-prog-" + gen)
         src = os.path.join(MODS[gen][2], prog)
         shutil.copy(src, os.path.join(mod, "main.go"))
-        p = subprocess.run(["go", "build", "-o", "regen.bin", "."], cwd=mod, env=lib.GOENV, stdout=subprocess.PIPE, stderr=subprocess.STDOUT, text=True)
+        p = lib.go_run(["go", "build", "-o", "regen.bin", "."], mod)
         if p.returncode != 0:
             raise lib.Broken("cannot build %s: %s" % (prog, p.stdout[-1500:]))
         wd = os.path.join(mod, "work", cwd_rel)
